@@ -14,7 +14,7 @@ Definition check_hub_C11 := hub_project [15; 16].
 (* C01: trusted only by registration or exactly hello-ok; dial only for trusted/queued SKIs and
    never to a SKI the user unregistered or cancelled; unregister / cancel leave the SKI untrusted
    and unqueued and end its connection *)
-Definition check_hub_C01 := hub_project [10; 12; 13; 14; 17].
+Definition check_hub_C01 := hub_project [10; 12; 13; 14; 17; 20].
 (* C09: created connections get the stored SHIP id *)
 Definition check_hub_C09 := hub_project [18].
 
